@@ -3,7 +3,7 @@ import vlib
 from props import clihist_common as C
 from props._client_family import *  # noqa
 
-TRANSLATORS = ["shutdown_order"]
+TRANSLATORS = ["shutdown_order", "client_dispatch"]     # client_dispatch: Gen/ClientDispatchGen.v (Model/ClientMgr.v interprets the dispatch of handle_recv_message read from the source)
 MODELS = ["clihist", "clifault"]
 BINS = {"release": ["clihist", "clifault"], "debug": ["clihist", "clifault"]}
 DEBUG_IN_QUICK = True
